@@ -84,22 +84,24 @@ func VerifC01WriteSequence() {
 			want = append(want, expect{kind: vcKey})
 		}
 		if vf.NondetIntRange("isChord", 0, 1) == 1 {
-			// consecutive instances use different symbols (m7, sus4, major triad, …), so that
-			// nothing remembered from one chord can pass for the next
-			si := (i + 1) % 3
+			// A later chord is either the very chord written before (same symbol, no bass — its
+			// degree may coincide too — so that anything remembered per chord is put to the
+			// test, above all across a key change) or a different one (another symbol, written
+			// over its own root an octave up: base "8", so the bass lands on the root's key and
+			// must still get its own note-on).
+			si := 1
+			var bass *note.Degree
+			bassUp := 0
+			if i > 0 && vf.NondetIntRange("like-the-first", 0, 1) == 0 {
+				si = (i + 1) % 3
+				bass = &note.Degree{Value: 8, Name: note.PerfectDegree}
+				bassUp = 12
+			}
 			rec, _ := verifDict.Map.GetChord(symbols[si])
 			dn := vf.NondetInt("degree")
 			vf.Assume(1 <= dn)
 			vf.Assume(dn <= 7)
 			names := [8]note.DegreeName{note.UnknownDegree, note.PerfectDegree, note.MajorDegree, note.MajorDegree, note.PerfectDegree, note.PerfectDegree, note.MajorDegree, note.MajorDegree}
-			// every other chord is written over its own root an octave up (base "8"): the bass
-			// then lands on the same key as the root and must still get its own note-on
-			var bass *note.Degree
-			bassUp := 0
-			if i%2 == 1 {
-				bass = &note.Degree{Value: 8, Name: note.PerfectDegree}
-				bassUp = 12
-			}
 			c := op.NewChord(note.Degree{Value: uint(dn), Name: names[dn]}, rec, bass)
 			in.Chord = &c
 			// the pitches the property demands, from the reference definitions only (nothing
